@@ -21,7 +21,9 @@ RULE = ('cross product method(7) x EIO(6) x transport(4) x sid kind(7: absent, '
         'all cells, quick = all cells within 2 coordinates of the default + '
         'seeded sample. non-trivial = the reference requires refusal or the '
         'request was refused (snapshot oracle evaluated); distinct = distinct '
-        'such cells')
+        'such cells; plus seeded query strings that REPEAT parameters (EIO, '
+        'transport, sid, j) with conflicting values, refused-required only '
+        'when every reading of the repetition is a refusal')
 ASSUMPTIONS = ['OPTIONS requests are status don\'t-care (CORS pre-flight); '
                'EIO values "04"/"4 ", blank j= and POST/transport mismatches '
                'are don\'t-care cells; the no-effect oracle applies to every '
@@ -80,6 +82,11 @@ def must_refuse(method, eio, transport, sidk, hdrs, jp, conf):
         # by the statement -> don't care
         is_upgrade_req = hdrs in ('both', 'upgrade-only')
         if tr == using:
+            if not is_upgrade_req and 'polling' not in allowed:
+                # a plain HTTP read is carried by the polling transport
+                # whatever its query says; with polling not allowed C06
+                # ("a transport ... not allowed is never used") governs
+                return None
             return None if is_upgrade_req else False
         if tr == 'websocket' and is_upgrade_req and using == 'polling':
             return None     # an upgrade of it: admitted (C06 governs)
@@ -231,6 +238,108 @@ def run_cell(rec, cell):
         sim.teardown()
 
 
+RAW_VALUES = {
+    'EIO': ['4', '3', '5', '4.0', ''],
+    'transport': ['polling', 'websocket', 'foo'],
+    'sid': ['LIVE', 'CLOSED', 'UNKNOWN'],
+    'j': ['0', '7', 'abc'],
+}
+
+
+def raw_must_refuse(method, pairs):
+    """Reference for query strings that repeat parameters. A repeated
+    parameter with conflicting values is refused-or-not at the server's
+    choice UNLESS every reading of it is a refusal: no value names a live
+    session, no value is an allowed transport, no value is a numeric index;
+    an opening request that names any version other than 4 is not a
+    version-4 request."""
+    vals = {}
+    for k, v in pairs:
+        if v != '':     # a blank value names nothing (same as absent)
+            vals.setdefault(k, []).append(v)
+    if method not in ('GET', 'POST'):
+        return None
+    tr = vals.get('transport', ['polling'])
+    if all(t not in ('polling', 'websocket') for t in tr):
+        return True
+    if 'j' in vals and all(not v.isdigit() for v in vals['j']):
+        return True
+    if 'sid' in vals:
+        if all(v in ('CLOSED', 'UNKNOWN') for v in vals['sid']):
+            return True
+        return None
+    if method == 'POST':
+        return True
+    if any(v != '4' for v in vals.get('EIO', [None])):
+        return True
+    return None
+
+
+def run_raw(rec, case):
+    method, srv, pairs = case['method'], case['srv'], case['raw']
+    rec.evaluations += 1
+    sim = scen.make_sim(srv)
+    try:
+        pop = prepare(sim, None)
+        sub = {'LIVE': pop['live'].sid, 'CLOSED': pop['closed'].sid,
+               'UNKNOWN': pop['unknown'].sid}
+        qs = '&'.join('%s=%s' % (k, sub.get(v, v)) for k, v in pairs)
+        want = raw_must_refuse(method, pairs)
+        before = norm_snapshot(sim)
+        kw = {'env_override': {'QUERY_STRING': qs}} if srv == 'T' else \
+            {'scope_override': {'query_string': qs.encode()}}
+        t = sim.request(method, {}, {}, body=b'4x' if method == 'POST'
+                        else None, **kw)
+        sim.quiesce()
+        refused = t.done and t.code in (400, 405)
+        desc = '%s ?%s server=%s' % (method, '&'.join(
+            '%s=%s' % (k, v) for k, v in pairs), srv)
+        if want is True:
+            rec.count('must_refuse')
+            rec.count('repeated_parameter_requests')
+            rec.key('raw/' + desc)
+            if t.exc is not None:
+                rec.viol('refusal-raises-%s-raw' % type(t.exc).__name__,
+                         'request that must be refused raised %r: %s' % (
+                             t.exc, desc), case)
+            elif not t.done:
+                rec.viol('refusal-hangs', 'request that must be refused did '
+                         'not complete: %s' % desc, case)
+            elif not refused:
+                rec.viol('admitted-repeated-parameter', 'request that must be '
+                         'refused under every reading of its repeated '
+                         'parameters answered %r: %s' % (t.status, desc), case)
+        if refused:
+            rec.count('no_effect_snapshot')
+            after = norm_snapshot(sim)
+            if after != before:
+                diff = {k: (before[k], after[k]) for k in before
+                        if before[k] != after[k]}
+                rec.viol('refused-request-had-effect', 'refused request (%s) '
+                         'changed state: %s' % (desc, str(diff)[:500]), case)
+    finally:
+        sim.teardown()
+
+
+def raw_cases(tier, rng):
+    out = []
+    keys = list(RAW_VALUES)
+    for _ in range(6000 if tier == 'thorough' else 500):
+        pairs = []
+        for k in keys:
+            r = rng.random()
+            n = 0 if r < 0.2 else 1 if r < 0.6 else 2 if r < 0.93 else 3
+            if k == 'sid' and rng.random() < 0.5:
+                n = 0
+            pairs += [[k, rng.choice(RAW_VALUES[k])] for _ in range(n)]
+        rng.shuffle(pairs)
+        if max([sum(1 for a in pairs if a[0] == k) for k in keys]) < 2:
+            continue
+        out.append({'raw': pairs, 'srv': rng.choice(SRV),
+                    'method': rng.choice(['GET', 'GET', 'POST'])})
+    return out
+
+
 def plan(tier, seed):
     rng = gen.mkrng('c12', seed)
     allc = list(itertools.product(*[range(n) for n in DIMS]))
@@ -252,13 +361,15 @@ def plan(tier, seed):
             rng.sample(allc, 2000)
     rng.shuffle(chosen)
     n = 16
-    return [{'cells': chosen[i::n], 'all': tier == 'thorough'}
-            for i in range(n)]
+    raw = raw_cases(tier, rng)
+    return [{'cells': chosen[i::n], 'raw': raw[i::n],
+             'all': tier == 'thorough'} for i in range(n)]
 
 
 def run_shard(spec):
     rec = Rec()
     scen.run_cases(rec, [tuple(c) for c in spec['cells']], run_cell)
+    scen.run_cases(rec, spec.get('raw', []), run_raw)
     if spec.get('all'):
         rec.extra['exhaustive'] = True
     return rec.result()
@@ -266,5 +377,8 @@ def run_shard(spec):
 
 def replay(case):
     rec = Rec()
+    if 'raw' in case:
+        run_raw(rec, case)
+        return rec.violations
     run_cell(rec, tuple(case['cell']))
     return rec.violations
